@@ -89,6 +89,36 @@ void ob_c04_roll_axis(const arr_fs<float,N,R>& a, int shift, const std::array<si
         OBLIGE("C04.roll_axis.element", same_bits(e1,e2), R, AXIS+10);
     }
 }
+// ---- index::roll with a LIST of axes (index level, every shape / position / shift): the listed axes are shifted one after the other
+// (np.roll: `for sh, ax in broadcast(shift, axis): shifts[ax] += sh`), a scalar shift is broadcast over the list, the other axes are kept.
+// Kinds: fixed-length lists (std::array) and bounded run-time-length lists (static_vector with an assumed length), which take the
+// library's run-time-loop branches (normalize_roll_length resizes its result).
+template <class K, size_t R, int A0, int A1, bool SCALAR>
+void ob_c04_roll_list(const std::array<size_t,R>& shape_, const std::array<size_t,R>& idx_, const mk_t<K,int,2>& shift_)
+{
+    const auto shape = shape_; const auto idx = idx_; const auto shift = shift_;
+    mk_t<K,int,2> axis{}; if constexpr (std::is_same_v<K,k_sv>) axis.resize(2);
+    nm::at(axis,0) = A0; nm::at(axis,1) = A1;
+    assume_len<2>(shift);
+    for_<R>([&](auto I){ ASSUME(shape[I.value] >= 1); ASSUME(shape[I.value] <= 0x3fffffff); ASSUME(idx[I.value] < shape[I.value]); });
+    const int s0 = rd<0>(shift), s1 = SCALAR ? s0 : rd<1>(shift);
+    ASSUME(s0 > -0x1fffffff && s0 < 0x1fffffff); ASSUME(s1 > -0x1fffffff && s1 < 0x1fffffff);
+    auto r = [&]{ if constexpr (SCALAR) return nm::index::roll(shape, idx, s0, axis); else return nm::index::roll(shape, idx, shift, axis); }();
+    constexpr long tag = kid<K> * 1000 + (SCALAR ? 500 : 0) + A0 * 10 + A1;
+    OBLIGE("C04.roll_list.result_rank", (size_t)nm::len(r) == R, R, tag);
+    // the library's index type is int: the expectation is stated in the same type (no overflow: extents < 2^30, |shift| < 2^29)
+    std::array<int,R> e{}; for_<R>([&](auto I){ e[I.value] = (int)idx[I.value]; });
+    auto mod = [](int d, int n){ int w = d % n; return w < 0 ? w + n : w; };
+    e[A0] = mod(e[A0] - s0, (int)shape[A0]);
+    e[A1] = mod(e[A1] - s1, (int)shape[A1]);
+    for_<R>([&](auto I){
+        if constexpr ((int)I.value == A0 || (int)I.value == A1) OBLIGE("C04.roll_list.listed_axis_is_shifted_mod_extent|C02.roll_list.srcidx_in_extent", (long)gx<I.value>(r) == (long)e[I.value], R, tag, I.value);
+        else OBLIGE("C04.roll_list.other_axes_same", (long)gx<I.value>(r) == (long)idx[I.value], R, tag, I.value);
+    });
+}
+#define RLL(K,R,A0,A1,S) template void ob_c04_roll_list<K,R,A0,A1,S>(const std::array<size_t,R>&, const std::array<size_t,R>&, const mk_t<K,int,2>&);
+RLL(k_std,2,0,1,false) RLL(k_std,2,1,0,true) RLL(k_std,3,2,0,false) RLL(k_std,3,0,2,true) RLL(k_std,3,1,1,false) RLL(k_std,2,0,0,true)
+RLL(k_sv,2,0,1,false) RLL(k_sv,2,1,0,true) RLL(k_sv,3,2,0,false) RLL(k_sv,3,0,2,true) RLL(k_sv,3,1,1,false) RLL(k_sv,2,0,0,true)
 template <size_t N>
 void ob_c04_negctl(const arr_fs<float,N,2>& a, const std::array<size_t,2>& reps_)
 {
